@@ -44,16 +44,28 @@ impl Future for YieldOnce {
 pub struct SimAppSet {
     pub apps: Vec<App>,
     pub system_idx: usize,
+    /// Some: every call is delegated to the library's own VecAppSet (only when the system app is the first one),
+    /// so that the library's implementation stays under test as well
+    pub lib: Option<omaha_client::app_set::VecAppSet>,
 }
 impl AppSet for SimAppSet {
     fn get_apps(&self) -> Vec<App> {
-        self.apps.clone()
+        match &self.lib {
+            Some(v) => v.get_apps(),
+            None => self.apps.clone(),
+        }
     }
     fn iter_mut_apps(&mut self) -> Box<dyn Iterator<Item = &mut App> + '_> {
-        Box::new(self.apps.iter_mut())
+        match &mut self.lib {
+            Some(v) => v.iter_mut_apps(),
+            None => Box::new(self.apps.iter_mut()),
+        }
     }
     fn get_system_app_id(&self) -> &str {
-        &self.apps[self.system_idx.min(self.apps.len() - 1)].id
+        match &self.lib {
+            Some(v) => v.get_system_app_id(),
+            None => &self.apps[self.system_idx.min(self.apps.len() - 1)].id,
+        }
     }
 }
 
@@ -291,7 +303,11 @@ impl Driver {
         let mk_cup = || if setup.cup { client_public_keys(w).as_ref().map(StandardCupv2Handler::new) } else { None };
         let cup = mk_cup();
         let apps: Vec<App> = setup.apps.iter().map(|a| a.to_app()).collect();
-        let app_set = Rc::new(AMutex::new(SimAppSet { apps, system_idx: setup.system_idx }));
+        // half of the setups whose system app is the first one run on the library's VecAppSet (chosen by a hash of
+        // the app ids so that a restart of the same setup makes the same choice)
+        let use_lib = setup.system_idx == 0 && !apps.is_empty() && apps.iter().map(|a| a.id.len() + a.id.bytes().map(|b| b as usize).sum::<usize>()).sum::<usize>() % 2 == 0;
+        let lib = if use_lib { Some(omaha_client::app_set::VecAppSet::new(apps.clone())) } else { None };
+        let app_set = Rc::new(AMutex::new(SimAppSet { apps, system_idx: setup.system_idx, lib }));
         self.app_set = Some(app_set.clone());
         let storage = Rc::new(AMutex::new(SimStorage { w: w.clone() }));
         self.storage_rc = Some(storage.clone());
